@@ -252,6 +252,17 @@ theorem linkParent_keeps (hr : rule.chainCheck = true) (hn : ∀ cd, Keeps (fun 
         · exact hs'
         · exact link_acyclic_step rule hr s' _ _ hs'
 
+theorem headerStep_keeps (hr : rule.chainCheck = true) (hn : ∀ cd, Keeps (fun s => nested s cd))
+    (t : Nat) (d : ClassDecl α) : Keeps (headerStep rule norm ds nested t d) := by
+  intro s hs
+  simp only [headerStep]
+  split
+  · exact Res.andThen_keeps (linkParent_keeps rule norm ds nested hr hn t d s hs)
+      (f := fun s' => Res.ok ((s'.insertSym t d.name).insertSym t d.name))
+      (by intro s' hs'; show Acyclic (ptrOf ((s'.insertSym _ d.name).insertSym _ d.name))
+          rw [ptrOf_insertSym, ptrOf_insertSym]; exact hs')
+  · exact hs
+
 theorem declStep_keeps (hn : ∀ cd, Keeps (fun s => nested s cd)) (t : Nat) (uses : List α) (dc : Decl α) :
     Keeps (fun s => declStep norm ds nested t uses s dc) := by
   intro s hs
@@ -279,10 +290,7 @@ theorem annotateBody_keeps (hr : rule.chainCheck = true) (hn : ∀ cd, Keeps (fu
       pub := (norm d.name, s.tables.length) :: s.pub,
       full := if defsOnly then s.full else norm d.name :: s.full } : St α) = ptrOf (s.newTable d.name).1 := rfl
     rw [this, ptrOf_newTable]; exact hs
-  have h1 := Res.andThen_keeps (linkParent_keeps rule norm ds nested hr hn s.tables.length d _ h0)
-    (f := fun s' => Res.ok ((s'.insertSym s.tables.length d.name).insertSym s.tables.length d.name))
-    (by intro s' hs'; show Acyclic (ptrOf ((s'.insertSym _ d.name).insertSym _ d.name))
-        rw [ptrOf_insertSym, ptrOf_insertSym]; exact hs')
+  have h1 := headerStep_keeps rule norm ds nested hr hn s.tables.length d _ h0
   have h2 := foldl_andThen_keeps d.decls (fun s' dc => declStep norm ds nested s.tables.length d.uses s' dc)
     (declStep_keeps norm ds nested hn _ _) _ h1
   split
@@ -384,10 +392,18 @@ theorem request_keeps (hr : rule.chainCheck = true) (kd : Kind) (ci : Nat) :
       intro s1 hs1
       apply Res.andThen_keeps (ensureNodes_keeps rule norm ds hr _ s1 hs1)
       intro s2 hs2
-      exact foldl_andThen_keeps d.members (fun s m => memberWalks rule norm ds ci (declaresAt norm ds m) s)
-        (fun m => memberWalks_keeps rule norm ds hr ci _) _ hs2
+      simp only []
+      split
+      · exact foldl_andThen_keeps d.members (fun s m => memberWalks rule norm ds ci (declaresAt norm ds m) s)
+          (fun m => memberWalks_keeps rule norm ds hr ci _) _ hs2
+      · exact hs2
     | hierx =>
-      exact Res.andThen_keeps (ensureTable_keeps rule norm ds hr _ s hs) (memberWalks_keeps rule norm ds hr ci _)
+      apply Res.andThen_keeps (ensureTable_keeps rule norm ds hr _ s hs)
+      intro s1 hs1
+      simp only []
+      split
+      · exact memberWalks_keeps rule norm ds hr ci _ s1 hs1
+      · exact hs1
 
 theorem runRequests_keeps (hr : rule.chainCheck = true) (reqs : List (Kind × Nat)) :
     Keeps (runRequests rule norm ds reqs) := by
